@@ -1,96 +1,197 @@
-import PysnarkModel.Lemmas.BranchRun
-import PysnarkModel.Lemmas.BranchUntouched
+import PysnarkModel.Lemmas.BranchNative
 import PysnarkModel.Lemmas.BranchInv
 import PysnarkModel.Lemmas.BranchObl
+import PysnarkModel.Lemmas.BranchGuard
 /-!
 # C09 — oblivious if/elif/else, while and for compute what native control flow computes
 
-Statement language (`Model/Branching.lean`): assignments of `+ - *` expressions over tracked
-variables, secret inputs, loop variables and constants (bare names alias the object); `if/elif/else`
-on comparisons of such expressions, with variables first bound inside the arms; `for` with a secret
-bound and a public maximum; `while` with a public cap and an optional break condition; selection
-with lazily evaluated branches; arbitrary nesting.  `runBlock` is the model of the rendered Python
-source run against `pysnark/branching.py`; `nativeRun` (`Spec/Native.lean`) is the same program with
-native Python control flow on plain integers.
+Statement language (`Model/Branching.lean`).  Tracked variables hold secret integers (`LinComb`),
+booleans (`LinCombBool`), fixed-point numbers (`LinCombFxp`) and (nested) lists of these (`TVal`).
+Expressions: `+ - *` over tracked variables, secret integer and fixed-point inputs, loop variables and
+constants; comparisons (booleans); `~ & |` on booleans; list literals, `l[i]` with a public index.
+Statements: assignment (bare names alias the object), element assignment `_.l[i][j] = e`,
+`if_then_else` on evaluated values of any (mixed) kinds and on lazily evaluated branches,
+`if/elif/else` on any boolean-valued expression with variables first bound inside the arms, `for`
+with a secret bound and a public maximum, `while` with a public cap and an optional break condition;
+arbitrary nesting.  `runBlockT` is the model of the rendered Python source run against
+`pysnark/branching.py` (the merge at a block exit as `BranchContext.exit()` does it for every kind:
+identity shortcut, deep-copied snapshot that re-creates booleans and fixed-point numbers,
+element-wise merge of lists, fixed-point coercion, kind changes); `nativeRunT`
+(`Spec/Native.lean`) is the same program with native Python control flow on plain values (Python
+ints, exact multiples of `2^-r` for fixed point, lists).
 
 * `C09_refines` — for ALL programs, nestings, initial values and inputs: when the traced run
-  completes, the native run does not fail with a `NameError`, and unless it reaches a `for` whose
-  bound is outside `0 … max` (outside the domain of the property), the tracked variables at the end
-  are exactly the native variables with the native values; no context is left open and the guard
-  is back to "true".  "The traced run completes" carries the range side conditions of the library:
-  a comparison raises when its operands leave the bit length, reading an unbound variable raises,
-  binding a variable in only some arms raises.
-* `C09_untouched` — a variable that a statement (block) does not assign keeps its object: value,
-  wire expression and identity, whatever the conditions are.
-* `C09_sat` — every constraint emitted by a completed run holds on the recorded witness, and every
-  tracked variable is coherent with its wire expression (all nesting depths: the effective guard of
-  a nested block is the bitwise AND of the enclosing guard and the condition).
+  completes, and the initial values are representable at the resolution, the native run does not
+  fail (`NameError`, `TypeError`, inexact product), and unless it reaches a `for` whose bound is
+  outside `0 … max` (outside the domain of the property) the tracked variables at the end are
+  exactly the native variables and stand for the same numbers (`RefV`: integers and booleans by
+  value, fixed point by representation, lists element-wise; every tracked boolean is 0 or 1); no
+  context is left open and the guard is back to "true".  "The traced run completes" carries the
+  side conditions of the library (a comparison raises when its operands leave the bit length,
+  reading an unbound variable raises, binding a variable in only some arms raises) and of the model
+  (operand kinds for which the library computes something else than Python — `LinComb < LinCombFxp`,
+  fixed point times fixed point — and merges of lists of different lengths stop it).
+* `C09_refines_int` — the same for integer variables and inputs only (`runBlock` / `nativeRun`).
+* `C09_guard_restored` — after every completed run (statement) the guard triple (active guard,
+  error suppression, `LinComb.ONE`) is what it was, whatever the conditions were; no context is open.
+* `C09_untouched` — a variable holding secret integers (or lists of them) that a statement does not
+  assign keeps its objects: value, wire expression and identity, whatever the conditions are.
+  `C09_untouched_value` — a variable of ANY kind that a statement run under a true guard does not
+  assign ends with the number it had, and is coherent (`C09_sat`).  Its OBJECT changes when it is a
+  boolean or a fixed-point number: the snapshot of `BranchingValues.backup()` re-creates these, the
+  identity shortcut of `if_then_else` does not apply, one constraint is spent, and a boolean comes
+  back as a plain `LinComb` (`C09_cex_boolean_demoted`).
+* `C09_sat` — every constraint emitted by a completed run holds on the recorded witness, every
+  tracked scalar is coherent with its wire expression and every tracked boolean is 0 or 1 (all
+  nesting depths: the effective guard of a nested block is the bitwise AND of the enclosing guard
+  and the condition).
 * `C09_oblivious` — two completed runs of the same program on any two vectors of secret values emit
-  the same constraints over the same wires, and end with the same wire expressions.
+  the same constraints over the same wires, and end with values of the same shape (kinds, wire
+  expressions, identities).
 * `C09_cex_negative_bound` — the cap precondition has two sides: a negative secret bound makes the
   oblivious `for` run all `max` rounds where `range(bound)` runs none.
-
-Not covered by the Lean statement language (direct oracle only, `harness/props/c09_typed.py`):
-tracked variables of boolean, fixed-point and list kind and value-level `if_then_else` on them.
 -/
 namespace Pysnark
 
 /-- **values**: the traced program ends with the native program's variables -/
 def C09_refines_full : Prop :=
-  ∀ (s0 : St) (init : List (Nat × Int)) (inputs : List Int) (prog : BBlock) (bs : BSt) (s : St),
+  ∀ (s0 : St) (init : List (Nat × IVal)) (inputs : List Int) (finputs : List (Int × Nat)) (prog : BBlock)
+    (bs : BSt) (s : St),
     s0.guard = none → s0.ignoreErrors = false →
-    runBlock init inputs prog s0 = .ok (bs, s) →
+    runBlockT init inputs finputs prog s0 = .ok (bs, s) →
     bs.stack = [] ∧
-    match nativeRun init inputs prog with
-    | .ok E => (∀ x, bs.bv.vals.valOf x = E.get? x) ∧ Live s
-    | .error .uncapped => True
-    | .error .name => False
+    match nativeInit s0.resolution init inputs finputs with
+    | .error _ => True          -- an initial fixed-point value is not a multiple of `2^-r`
+    | .ok (E0, nc) =>
+      match nBlock nc prog E0 with
+      | .ok E => RefV s0.resolution bs.bv.vals E ∧ Live s0.resolution s
+      | .error .uncapped => True
+      | .error _ => False
 
 theorem C09_refines : C09_refines_full := by
-  intro s0 init inputs prog bs s hg hi h
-  obtain ⟨hst, hpost⟩ := runBlock_ref hg hi h
+  intro s0 init inputs finputs prog bs s hg hi h
+  obtain ⟨hst, hpost⟩ := runBlockT_ref hg hi h
   refine ⟨hst, ?_⟩
-  unfold Post at hpost
-  cases hN : nativeRun init inputs prog with
-  | ok E => rw [hN] at hpost; exact ⟨hpost.2, hpost.1⟩
-  | error e => rw [hN] at hpost; cases e <;> exact hpost
+  cases hI : nativeInit s0.resolution init inputs finputs with
+  | error e => trivial
+  | ok p =>
+    obtain ⟨E0, nc⟩ := p
+    have hp := hpost E0 nc hI
+    unfold Post at hp
+    show match nBlock nc prog E0 with
+      | .ok E => RefV s0.resolution bs.bv.vals E ∧ Live s0.resolution s
+      | .error .uncapped => True
+      | .error _ => False
+    cases hN : nBlock nc prog E0 with
+    | ok E => rw [hN] at hp; exact ⟨hp.2, hp.1⟩
+    | error e => rw [hN] at hp; cases e <;> exact hp
+
+/-! ### integers only -/
+/-- integer variables and inputs only: the native run starts from the same integers -/
+theorem C09_refines_int (s0 : St) (init : List (Nat × Int)) (inputs : List Int) (prog : BBlock) (bs : BSt) (s : St)
+    (hg : s0.guard = none) (hi : s0.ignoreErrors = false) (h : runBlock init inputs prog s0 = .ok (bs, s)) :
+    bs.stack = [] ∧
+    match nativeRun s0.resolution init inputs prog with
+    | .ok E => RefV s0.resolution bs.bv.vals E ∧ Live s0.resolution s
+    | .error .uncapped => True
+    | .error _ => False := by
+  obtain ⟨hst, hpost⟩ := C09_refines s0 _ inputs [] prog bs s hg hi h
+  refine ⟨hst, ?_⟩
+  have hI : nativeInit s0.resolution (init.map (fun kv => (kv.1, PTree.leaf (ILeaf.int kv.2)))) inputs []
+      = .ok (init.foldl (fun e kv => e.set kv.1 (.leaf (.int kv.2))) [],
+             { res := s0.resolution, inputs := inputs.map NLeaf.int, finputs := [] }) := by
+    simp only [nativeInit, nInitVars_int, nLeaves_int, ok_bind, List.map_nil, nLeaves]
+    rfl
+  rw [hI] at hpost
+  simp only [nativeRun, nativeRunT, hI, ok_bind]
+  exact hpost
 
 /-- the same for one statement inside any program: from a state whose effective guard is true and
 whose tracked variables are the native variables, to such a state -/
-theorem C09_refines_stmt (st : BStmt) (env : BEnv) (nc : NCtx) (bs bs' : BSt) (s s' : St) (E : NEnv)
-    (hi : RefI env nc) (hl : Live s) (hr : RefV bs.bv.vals E) (h : execStmt env st bs s = .ok (bs', s')) :
+theorem C09_refines_stmt {r : Nat} (st : BStmt) (env : BEnv) (nc : NCtx) (bs bs' : BSt) (s s' : St) (E : NEnv)
+    (hi : RefI r env nc) (hl : Live r s) (hr : RefV r bs.bv.vals E) (h : execStmt env st bs s = .ok (bs', s')) :
     match nStmt nc st E with
-    | .ok E' => Live s' ∧ RefV bs'.bv.vals E'
+    | .ok E' => Live r s' ∧ RefV r bs'.bv.vals E'
     | .error .uncapped => True
-    | .error .name => False :=
-  execStmt_ref st env nc bs bs' s s' E hi hl hr h
+    | .error _ => False := by
+  have hp := execStmt_ref st env nc bs bs' s s' E hi hl hr h
+  unfold Post at hp
+  cases hN : nStmt nc st E with
+  | ok E' => rw [hN] at hp; exact hp
+  | error e => rw [hN] at hp; cases e <;> exact hp
 
-/-- **untouched variables**: same object (value, wire expression, identity) after the statement -/
+/-- **guard state restored**: after a completed run no context is open and the guard triple
+(active guard, error-suppression flag, `LinComb.ONE`) is the initial one -/
+theorem C09_guard_restored (s0 : St) (init : List (Nat × IVal)) (inputs : List Int) (finputs : List (Int × Nat))
+    (prog : BBlock) (bs : BSt) (s : St) (hg : s0.guard = none) (hi : s0.ignoreErrors = false)
+    (h : runBlockT init inputs finputs prog s0 = .ok (bs, s)) :
+    bs.stack = [] ∧ s.guard = s0.guard ∧ s.ignoreErrors = s0.ignoreErrors ∧ s.one = s0.one := by
+  have hst := (runBlockT_ref hg hi h).1
+  refine ⟨hst, ?_⟩
+  unfold runBlockT at h
+  obtain ⟨bv, s1, h1, h⟩ := bind_ok.mp h
+  obtain ⟨⟨inp, n1⟩, s2, h2, h⟩ := bind_ok.mp h
+  obtain ⟨⟨finp, n2⟩, s3, h3, h⟩ := bind_ok.mp h
+  have hl0 : Live s0.resolution s0 := ⟨by unfold St.isGuard; rw [hg], hi, rfl⟩
+  have sm1 := setupVars_same init (bv := {}) hl0 h1
+  obtain ⟨sm2, _, _⟩ := setupInputs_ref _ (hl0.same sm1) h2
+  obtain ⟨sm3, _, _⟩ := setupInputs_ref _ ((hl0.same sm1).same sm2) h3
+  have ht := execBlock_triple prog _ _ _ _ _ h
+  have sm := (sm1.trans sm2).trans sm3
+  rw [sm.triple] at ht
+  simp only [St.triple, Triple.mk.injEq] at ht
+  exact ht
+
+/-- the same for one statement in any state, whatever the guard is and wherever the conditions go -/
+theorem C09_guard_restored_stmt (st : BStmt) (env : BEnv) (bs bs' : BSt) (s s' : St)
+    (h : execStmt env st bs s = .ok (bs', s')) :
+    bs'.stack = bs.stack ∧ s'.guard = s.guard ∧ s'.ignoreErrors = s.ignoreErrors ∧ s'.one = s.one := by
+  have ht := execStmt_triple st env bs bs' s s' h
+  simp only [St.triple, Triple.mk.injEq] at ht
+  exact ⟨(execStmt_struct st env bs bs' s s' h).1.1, ht⟩
+
+/-- **untouched variables** (secret integers, lists of them): same objects (value, wire expression,
+identity) after the statement -/
 theorem C09_untouched (st : BStmt) (x : Nat) (env : BEnv) (bs bs' : BSt) (s s' : St)
-    (hx : st.assigns x = false) (h : execStmt env st bs s = .ok (bs', s')) :
+    (hx : st.assigns x = false) (hk : ∀ t, bs.bv.vals.get? x = some t → t.stable = true)
+    (h : execStmt env st bs s = .ok (bs', s')) :
     bs'.bv.vals.get? x = bs.bv.vals.get? x ∧ bs'.stack = bs.stack :=
-  ⟨execStmt_untouched st x env bs bs' s s' hx h, (execStmt_struct st env bs bs' s s' h).1⟩
+  ⟨execStmt_untouched st x env bs bs' s s' hx hk h, (execStmt_struct st env bs bs' s s' h).1.1⟩
 
 theorem C09_untouched_block (b : BBlock) (x : Nat) (env : BEnv) (bs bs' : BSt) (s s' : St)
-    (hx : b.assigns x = false) (h : execBlock env b bs s = .ok (bs', s')) :
+    (hx : b.assigns x = false) (hk : ∀ t, bs.bv.vals.get? x = some t → t.stable = true)
+    (h : execBlock env b bs s = .ok (bs', s')) :
     bs'.bv.vals.get? x = bs.bv.vals.get? x :=
-  execBlock_untouched b x env bs bs' s s' hx h
+  execBlock_untouched b x env bs bs' s s' hx hk h
+
+/-- **untouched variables of any kind** (booleans, fixed point, lists of anything): the variable
+ends with the NUMBER it had (its object may be a new one), tracked booleans are still 0 or 1 -/
+theorem C09_untouched_value {r : Nat} (st : BStmt) (x : Nat) (env : BEnv) (nc : NCtx) (bs bs' : BSt) (s s' : St)
+    (E : NEnv) (hx : st.assigns x = false) (hi : RefI r env nc) (hl : Live r s) (hr : RefV r bs.bv.vals E)
+    (h : execStmt env st bs s = .ok (bs', s')) :
+    match nStmt nc st E with
+    | .ok _ => bs'.bv.vals.valOf r x = bs.bv.vals.valOf r x ∧ bs'.bv.vals.bok
+    | .error _ => True :=
+  execStmt_untouched_value st x env nc bs bs' s s' E hx hi hl hr h
 
 /-- **satisfaction and coherence** of every completed run, for every prime modulus -/
-theorem C09_sat (p : Nat) (hp : p.Prime) (bl res : Nat) (init : List (Nat × Int)) (inputs : List Int)
-    (prog : BBlock) (bs : BSt) (s : St) (h : runBlock init inputs prog (St.init p bl res) = .ok (bs, s)) :
-    (∀ c ∈ s.cons, Sat s.p s.assign c) ∧ (∀ x o, bs.bv.vals.get? x = some o → Coh s o.v) := by
-  obtain ⟨_, inv, good⟩ := runBlock_inv (Inv.init p bl res) ⟨p, hp, rfl⟩ h
-  exact ⟨inv.sat, fun x o hx => (good.vals.get? hx).2⟩
+theorem C09_sat (p : Nat) (hp : p.Prime) (bl res : Nat) (init : List (Nat × IVal)) (inputs : List Int)
+    (finputs : List (Int × Nat)) (prog : BBlock) (bs : BSt) (s : St)
+    (h : runBlockT init inputs finputs prog (St.init p bl res) = .ok (bs, s)) :
+    (∀ c ∈ s.cons, Sat s.p s.assign c) ∧ (∀ x t, bs.bv.vals.get? x = some t → CohT s t ∧ BoolT t) := by
+  obtain ⟨_, inv, good⟩ := runBlockT_inv (Inv.init p bl res) ⟨p, hp, rfl⟩ h
+  exact ⟨inv.sat, fun x t hx => ⟨(good.vals.get? hx).coh, (good.vals.get? hx).bok⟩⟩
 
-/-- **obliviousness**: the constraint system and the final wire expressions do not depend on the
-secret values (hence not on which branches were taken, nor on how often a loop ran) -/
-theorem C09_oblivious (s1 s2 : St) (hs : s1.shape = s2.shape) (init1 init2 : List (Nat × Int))
-    (hinit : Forall2 (fun a b => a.1 = b.1) init1 init2) (in1 in2 : List Int) (hin : in1.length = in2.length)
+/-- **obliviousness**: the constraint system and the final values' shapes (kinds, wire
+expressions, identities) do not depend on the secret values (hence not on which branches were
+taken, nor on how often a loop ran) -/
+theorem C09_oblivious (s1 s2 : St) (hs : s1.shape = s2.shape) (init1 init2 : List (Nat × IVal))
+    (hinit : Forall2 (fun a b => a.1 = b.1 ∧ IRel a.2 b.2) init1 init2) (in1 in2 : List Int) (hin : in1.length = in2.length)
+    (f1 f2 : List (Int × Nat)) (hf : f1.length = f2.length)
     (prog : BBlock) (bs1 bs2 : BSt) (t1 t2 : St)
-    (h1 : runBlock init1 in1 prog s1 = .ok (bs1, t1)) (h2 : runBlock init2 in2 prog s2 = .ok (bs2, t2)) :
+    (h1 : runBlockT init1 in1 f1 prog s1 = .ok (bs1, t1)) (h2 : runBlockT init2 in2 f2 prog s2 = .ok (bs2, t2)) :
     t1.shape = t2.shape ∧ ValsRel bs1.bv.vals bs2.bv.vals := by
-  obtain ⟨hr, ht⟩ := runBlock_obl hinit hin prog s1 s2 bs1 bs2 t1 t2 hs h1 h2
+  obtain ⟨hr, ht⟩ := runBlockT_obl hinit hin hf prog s1 s2 bs1 bs2 t1 t2 hs h1 h2
   exact ⟨ht, hr.bv.vals⟩
 
 /-! ## the cap precondition has two sides -/
@@ -98,20 +199,96 @@ theorem C09_oblivious (s1 s2 : St) (hs : s1.shape = s2.shape) (init1 init2 : Lis
 /-- `for l0 in _range(inp[0], max=2): x0 = x0 + 1` -/
 def exNeg : BBlock := .cons (.forr 0 (.inp 0) 2 (.cons (.assign 0 (.add (.var 0) (.const 1))) .nil)) .nil
 
-def runVals (init : List (Nat × Int)) (inputs : List Int) (prog : BBlock) (s0 : St) : Option (List (Nat × Int) × St) :=
-  match runBlock init inputs prog s0 with
-  | .ok (bs, s) => some (bs.bv.vals.map (fun kv => (kv.1, kv.2.v.value)), s)
+mutual
+/-- the values a tracked variable holds (fixed point: the representation), lists flattened -/
+def tvalInts : TVal → List Int
+  | .leaf (.pub c) => [c]
+  | .leaf (.sc _ l _) => [l.value]
+  | .node ts => tvalsInts ts
+def tvalsInts : List TVal → List Int
+  | [] => []
+  | t :: ts => tvalInts t ++ tvalsInts ts
+end
+
+mutual
+/-- the kinds of the scalars of a value: 0 plain int, 1 `LinComb`, 2 `LinCombBool`, 3 `LinCombFxp` -/
+def tvalKinds : TVal → List Nat
+  | .leaf (.pub _) => [0]
+  | .leaf (.sc .int _ _) => [1]
+  | .leaf (.sc .bool _ _) => [2]
+  | .leaf (.sc .fxp _ _) => [3]
+  | .node ts => tvalsKinds ts
+def tvalsKinds : List TVal → List Nat
+  | [] => []
+  | t :: ts => tvalKinds t ++ tvalsKinds ts
+end
+
+mutual
+def nvalInts (r : Nat) : NVal → List Int
+  | .leaf a => [a.norm r]
+  | .node ts => nvalsInts r ts
+def nvalsInts (r : Nat) : List NVal → List Int
+  | [] => []
+  | t :: ts => nvalInts r t ++ nvalsInts r ts
+end
+
+def runValsT (init : List (Nat × IVal)) (inputs : List Int) (finputs : List (Int × Nat)) (prog : BBlock) (s0 : St) :
+    Option (List (Nat × List Int) × St) :=
+  match runBlockT init inputs finputs prog s0 with
+  | .ok (bs, s) => some (bs.bv.vals.map (fun kv => (kv.1, tvalInts kv.2)), s)
+  | .error _ => none
+
+def runVals (init : List (Nat × Int)) (inputs : List Int) (prog : BBlock) (s0 : St) : Option (List (Nat × List Int) × St) :=
+  runValsT (init.map (fun kv => (kv.1, PTree.leaf (ILeaf.int kv.2)))) inputs [] prog s0
+
+/-- the native variables as numbers in units of `2^-r` -/
+def natVals (r : Nat) (res : NM NEnv) : Option (List (Nat × List Int)) :=
+  match res with
+  | .ok E => some (E.map (fun kv => (kv.1, nvalInts r kv.2)))
   | .error _ => none
 
 /-- with the secret bound −1 the oblivious loop runs both rounds (`x0` ends as 5) where
 `for l0 in range(-1)` runs none (`x0` stays 3): `0 ≤ bound` is part of the precondition, and the
 reference semantics reports the run as outside the domain (finding C09-negative-bound) -/
 theorem C09_cex_negative_bound :
-    (runVals [(0, 3)] [-1] exNeg (St.init 97 3 8)).map (·.1) = some [(0, 5)] ∧
-    nativeRun [(0, 3)] [-1] exNeg = .error .uncapped ∧
-    nIter ((-1 : Int).toNat) (fun _ e => nBlock { inputs := [-1] } (.cons (.assign 0 (.add (.var 0) (.const 1))) .nil) e) 0 [(0, 3)]
-      = .ok [(0, 3)] := by
-  decide +kernel
+    (runVals [(0, 3)] [-1] exNeg (St.init 97 3 8)).map (·.1) = some [(0, [5])] ∧
+    (match nativeRun 8 [(0, 3)] [-1] exNeg with | .error .uncapped => true | _ => false) = true ∧
+    natVals 0 (nIter ((-1 : Int).toNat) (fun _ e => nBlock { res := 8, inputs := [.int (-1)] }
+        (.cons (.assign 0 (.add (.var 0) (.const 1))) .nil) e) 0 [(0, .leaf (.int 3))])
+      = some [(0, [3])] := by
+  first | decide +kernel | fail "C09_cex_negative_bound: the closed run no longer evaluates to the recorded values"
+
+/-! ## a tracked boolean is demoted by every block it lives through -/
+
+/-- `if in0 == 1: x1 = x1 + 1` with `x0` a tracked boolean that the block does not touch -/
+def exDemote : BBlock :=
+  .cons (.ifs (.cmp .eq (.inp 0) (.const 1)) (.cons (.assign 1 (.add (.var 1) (.const 1))) .nil) .endif) .nil
+
+def runKinds (init : List (Nat × IVal)) (inputs : List Int) (finputs : List (Int × Nat)) (prog : BBlock) (s0 : St) :
+    Option (List (Nat × List Nat) × List (Nat × List Int) × Nat) :=
+  match runBlockT init inputs finputs prog s0 with
+  | .ok (bs, s) => some (bs.bv.vals.map (fun kv => (kv.1, tvalKinds kv.2)), bs.bv.vals.map (fun kv => (kv.1, tvalInts kv.2)), s.cons.length)
+  | .error _ => none
+
+/-- FINDING (C09-boolean-demoted): a tracked `LinCombBool` that a block does not touch keeps its
+value 1 but comes out of the block as a plain `LinComb` (kind 1 instead of 2), at the price of one
+more constraint per merge (here 6 constraints against 3 with an integer in its place: the two merges of `_endif` and the
+boolean test of the initial value): the snapshot taken by
+`BranchingValues.backup()` is a NEW `LinCombBool`, `if_then_else` does not take its identity
+shortcut and returns `copy + cond*(b - copy)`.  Using `_.x0` as the condition of a later `_if` then
+raises (`RuntimeError: Wrong type for if_then_else condition`; the model stops with `unmodelled`),
+where the native program `if b: …` runs. -/
+theorem C09_cex_boolean_demoted :
+    (runKinds [(0, .leaf (.bool 1)), (1, .leaf (.int 5))] [0] [] exDemote (St.init 97 3 8)
+      == some ([(0, [1]), (1, [1])], [(0, [1]), (1, [5])], 6)) = true ∧
+    (runKinds [(0, .leaf (.int 1)), (1, .leaf (.int 5))] [0] [] exDemote (St.init 97 3 8)
+      == some ([(0, [1]), (1, [1])], [(0, [1]), (1, [5])], 3)) = true ∧
+    (match runBlockT [(0, .leaf (.bool 1)), (1, .leaf (.int 5))] [0] []
+        (.cons (.ifs (.cmp .eq (.inp 0) (.const 1)) (.cons (.assign 1 (.add (.var 1) (.const 1))) .nil) .endif)
+          (.cons (.ifs (.var 0) (.cons (.assign 1 (.add (.var 1) (.const 1))) .nil) .endif) .nil)) (St.init 97 3 8) with
+      | .error .unmodelled => true
+      | _ => false) = true := by
+  first | decide +kernel | fail "C09_cex_boolean_demoted: the closed run no longer evaluates to the recorded values"
 
 /-! ## non-vacuity -/
 
@@ -119,34 +296,73 @@ theorem C09_cex_negative_bound :
 `for l0 in range(in1) [max 2]: x0 = x0 + l0`, `while x0 != 5 [cap 2]: x0 = x0 + 1; if x0 == 4: break`,
 `x1 = if_then_else(in0 != 0, lambda: x0 + 1, lambda: 2)` -/
 def exProg09 : BBlock :=
-  .cons (.ifs ⟨.eq, .inp 0, .const 1⟩ (.cons (.assign 0 (.add (.var 0) (.const 2))) (.cons (.assign 1 (.inp 0)) .nil))
-     (.elif ⟨.lt, .var 0, .const 1⟩ (.cons (.assign 1 (.mul (.var 0) (.const 2))) .nil)
+  .cons (.ifs (.cmp .eq (.inp 0) (.const 1)) (.cons (.assign 0 (.add (.var 0) (.const 2))) (.cons (.assign 1 (.inp 0)) .nil))
+     (.elif (.cmp .lt (.var 0) (.const 1)) (.cons (.assign 1 (.mul (.var 0) (.const 2))) .nil)
        (.els (.cons (.assign 1 (.var 0)) .nil)))) <|
   .cons (.forr 0 (.inp 1) 2 (.cons (.assign 0 (.add (.var 0) (.loopvar 0))) .nil)) <|
-  .cons (.whil ⟨.ne, .var 0, .const 5⟩ 2 (.cons (.assign 0 (.add (.var 0) (.const 1))) .nil) (some ⟨.eq, .var 0, .const 4⟩)) <|
-  .cons (.ite 1 ⟨.ne, .inp 0, .const 0⟩ (.add (.var 0) (.const 1)) (.const 2)) .nil
+  .cons (.whil (.cmp .ne (.var 0) (.const 5)) 2 (.cons (.assign 0 (.add (.var 0) (.const 1))) .nil) (some (.cmp .eq (.var 0) (.const 4)))) <|
+  .cons (.ite 1 (.cmp .ne (.inp 0) (.const 0)) (.add (.var 0) (.const 1)) (.const 2)) .nil
 
 def satAll (s : St) : Bool :=
   s.cons.all (fun c => (LC.eval s.assign c.1 * LC.eval s.assign c.2.1 - LC.eval s.assign c.2.2) % s.p == 0)
 
 /-- `C09_refines`, `C09_sat`: the run completes (first arm taken, loop of 2 rounds, while stops by its test),
-ends with the native values, and its 38 constraints hold -/
-example : (match runVals [(0, 1)] [1, 2] exProg09 (St.init 97 3 8), nativeRun [(0, 1)] [1, 2] exProg09 with
-    | some (vs, s), .ok E => vs == [(0, 5), (1, 6)] && E == [(0, 5), (1, 6)] && satAll s && decide (s.cons.length > 30)
-    | _, _ => false) = true := by decide +kernel
+ends with the native values, and its constraints hold -/
+example : (match runVals [(0, 1)] [1, 2] exProg09 (St.init 97 3 8), natVals 0 (nativeRun 8 [(0, 1)] [1, 2] exProg09) with
+    | some (vs, s), some E => vs == [(0, [5]), (1, [6])] && E == [(0, [5]), (1, [6])] && satAll s && decide (s.cons.length > 30)
+    | _, _ => false) = true := by
+  first | decide +kernel | fail "C09 example 1"
 
 /-- `C09_oblivious`, other branches: else arm, loop of 0 rounds, while stopped by the break; same constraints -/
 example : (match runVals [(0, 1)] [1, 2] exProg09 (St.init 97 3 8), runVals [(0, 2)] [0, 0] exProg09 (St.init 97 3 8),
-      nativeRun [(0, 2)] [0, 0] exProg09 with
-    | some (_, s), some (vs', s'), .ok E' => vs' == [(0, 4), (1, 2)] && E' == [(0, 4), (1, 2)] && satAll s' &&
+      natVals 0 (nativeRun 8 [(0, 2)] [0, 0] exProg09) with
+    | some (_, s), some (vs', s'), some E' => vs' == [(0, [4]), (1, [2])] && E' == [(0, [4]), (1, [2])] && satAll s' &&
         decide (s.shape = s'.shape)
-    | _, _, _ => false) = true := by decide +kernel
+    | _, _, _ => false) = true := by
+  first | decide +kernel | fail "C09 example 2"
 
-/-- `C09_untouched`: `x0` is not assigned by the `if`; it is the same object afterwards and the two
+/-- `C09_untouched`: `x0` (an integer) is not assigned by the `if`; it is the same object afterwards and the two
 merges cost no constraint for it -/
-example : (match runBlock [(0, 1), (1, 7)] [0] (.cons (.ifs ⟨.eq, .inp 0, .const 1⟩ (.cons (.assign 1 (.inp 0)) .nil) .endif) .nil)
+example : (match runBlock [(0, 1), (1, 7)] [0] (.cons (.ifs (.cmp .eq (.inp 0) (.const 1)) (.cons (.assign 1 (.inp 0)) .nil) .endif) .nil)
       (St.init 97 3 8) with
-    | .ok (bs, _) => bs.bv.vals.get? 0 == some ⟨⟨1, [(Wire.priv 0, 1)]⟩, 0⟩ && (bs.bv.vals.valOf 1 == some 7)
-    | _ => false) = true := by decide +kernel
+    | .ok (bs, _) => (match bs.bv.vals.get? 0 with
+        | some (.leaf (.sc .int l (some 0))) => l.value == 1 && l.lc == [(Wire.priv 0, 1)]
+        | _ => false) && ((bs.bv.vals.get? 1).map tvalInts == some [7])
+    | _ => false) = true := by
+  first | decide +kernel | fail "C09 example 3"
+
+/-- typed variables (resolution 2): `x0` boolean, `x1` fixed point 1.5, `x2 = [[1, 2], [3, 4]]`, `x3 = 5`;
+`x3 = if_then_else(~x0 | (x3 < 2), x1, x3)`, `if in0 == 1: x2[0][1] = in0 + 9; x1 = x0   else: x1 = x1 + fin0`,
+`for l0 in range(in1) [max 2]: x2[1][0] = x2[1][0] + l0`.  Branch not taken (in0 = 0): the two-index write does
+not survive, the else arm adds 0.75; the selection takes the integer 5 into a fixed-point variable (20 = 5·2²);
+the traced values are the native numbers (in units of 2⁻²) and all constraints hold. -/
+def exTyped : BBlock :=
+  .cons (.sel 3 (.or (.not (.var 0)) (.cmp .lt (.var 3) (.const 2))) (.var 1) (.var 3)) <|
+  .cons (.ifs (.cmp .eq (.inp 0) (.const 1))
+      (.cons (.setitem 2 [0, 1] (.add (.inp 0) (.const 9))) (.cons (.assign 1 (.var 0)) .nil))
+      (.els (.cons (.assign 1 (.add (.var 1) (.finp 0))) .nil))) <|
+  .cons (.forr 0 (.inp 1) 2 (.cons (.setitem 2 [1, 0] (.add (.item (.item (.var 2) 1) 0) (.loopvar 0))) .nil)) .nil
+
+def exTypedInit : List (Nat × IVal) :=
+  [(0, .leaf (.bool 1)), (1, .leaf (.fxp 3 1)), (2, .node [.node [.leaf (.int 1), .leaf (.int 2)], .node [.leaf (.int 3), .leaf (.int 4)]]),
+   (3, .leaf (.int 5))]
+
+example : (match runValsT exTypedInit [0, 2] [(3, 2)] exTyped (St.init 97 4 2),
+      natVals 2 (nativeRunT 2 exTypedInit [0, 2] [(3, 2)] exTyped) with
+    | some (vs, s), some E =>
+      vs == [(0, [1]), (1, [9]), (2, [1, 2, 4, 4]), (3, [20])] &&
+      E == [(0, [4]), (1, [9]), (2, [4, 8, 16, 16]), (3, [20])] && satAll s
+    | _, _ => false) = true := by
+  first | decide +kernel | fail "C09 example 4 (typed, branch not taken)"
+
+/-- the same program with the branch taken (in0 = 1): the element is written, the fixed-point variable takes the
+boolean (1 = 4·2⁻²); a different witness, the same constraint system -/
+example : (match runValsT exTypedInit [1, 1] [(3, 2)] exTyped (St.init 97 4 2), runValsT exTypedInit [0, 2] [(3, 2)] exTyped (St.init 97 4 2),
+      natVals 2 (nativeRunT 2 exTypedInit [1, 1] [(3, 2)] exTyped) with
+    | some (vs, s), some (_, s'), some E =>
+      vs == [(0, [1]), (1, [4]), (2, [1, 10, 3, 4]), (3, [20])] &&
+      E == [(0, [4]), (1, [4]), (2, [4, 40, 12, 16]), (3, [20])] && satAll s && decide (s.shape = s'.shape)
+    | _, _, _ => false) = true := by
+  first | decide +kernel | fail "C09 example 5 (typed, branch taken)"
 
 end Pysnark
